@@ -146,23 +146,68 @@ Proof. exact (monitor_sound_l k cmds es). Qed.
 Print Assumptions raft_monitor_sound.
 
 (* completeness w.r.t. the model, for every number of replicas, command table and trace: if the implementation agrees with the
-   model on the trace (model_eqb: code 1 absent), the table is inside the premise and free of the S19 shape, and the trace
-   satisfies trace_guard (commands are rows of the table; nothing applied / restored on a replica between its FSM.Snapshot and
-   the Persist of it - the guard ev_atomic of the theorems, the shape of S23; the R3 observation is the last event), then every
-   conjunct of the monitor that the model speaks about holds (`core`: all events but OAck and OReady) *)
+   model on the trace (model_eqb: code 1 absent), the table is inside the premise, the case has the shape of no carried finding
+   (tag_of = 0: no pin with origins, S19; no late snapshot restored or read offline, S23 - the recognisers themselves are the guard)
+   and the trace is well formed (trace_wf: commands are rows of the table; the R3 observation is the last event), then every
+   conjunct of the monitor that the model speaks about holds (`core`: all events but C17's OReady - acknowledgements included) *)
 Theorem raft_model_passes_monitor k cmds es :
-  forallb in_premise cmds = true -> is_S19 cmds = false -> trace_guard k cmds es = true ->
+  forallb in_premise cmds = true -> tag_of cmds es = 0 -> trace_wf k cmds es = true ->
   model_eqb k cmds es = true -> spec_run_sel core cmds [] (repeat snode0 (nn k)) es = true.
 Proof. exact (model_passes_monitor_l k cmds es). Qed.
 Print Assumptions raft_model_passes_monitor.
 
-(* ... and the monitor is exactly these conjuncts plus the two the model has no event for: acknowledgements (LogPin returned
-   nil: pass 1 accepts every OAck) and the C17 readiness bound *)
+(* ... and the monitor is exactly these conjuncts plus the one of C17 (the readiness bound) *)
 Theorem raft_model_passes_spec_okb k cmds es :
-  is_S19 cmds = false -> trace_guard k cmds es = true -> model_eqb k cmds es = true ->
+  tag_of cmds es = 0 -> trace_wf k cmds es = true -> model_eqb k cmds es = true ->
   spec_run_sel (fun e => negb (core e)) cmds [] (repeat snode0 (nn k)) es = true -> spec_okb k cmds es = true.
 Proof. exact (model_passes_spec_okb_l k cmds es). Qed.
 Print Assumptions raft_model_passes_spec_okb.
+
+(* the same read as the runner reads it: on a trace the model accepts, a code-2 failure never comes with tag 0 *)
+Theorem raft_no_untagged_failure k cmds es :
+  trace_wf k cmds es = true -> model_eqb k cmds es = true ->
+  spec_run_sel (fun e => negb (core e)) cmds [] (repeat snode0 (nn k)) es = true ->
+  spec_okb k cmds es = false -> tag_of cmds es <> 0.
+Proof. exact (no_untagged_failure_l k cmds es). Qed.
+Print Assumptions raft_no_untagged_failure.
+
+(* the S23 recogniser demands no more than the guard of the theorems above: on a trace the model accepts and on which nothing
+   is applied / restored on a replica between its FSM.Snapshot and the Persist of it (trace_guard = ev_atomic along the
+   model's run), it stays silent ... *)
+Theorem raft_atomic_guard_not_late k cmds es :
+  trace_guard k cmds es = true -> model_eqb k cmds es = true -> late_restore [] [] [] es = false.
+Proof. exact (atomic_not_late_l k cmds es). Qed.
+Print Assumptions raft_atomic_guard_not_late.
+
+(* ... so the completeness statement holds under the atomic guard, without reference to the recogniser *)
+Theorem raft_model_passes_monitor_atomic k cmds es :
+  forallb in_premise cmds = true -> is_S19 cmds = false -> trace_guard k cmds es = true ->
+  model_eqb k cmds es = true -> spec_run_sel core cmds [] (repeat snode0 (nn k)) es = true.
+Proof. exact (model_passes_monitor_atomic_l k cmds es). Qed.
+Print Assumptions raft_model_passes_monitor_atomic.
+
+(* acknowledgement (OAck c n: LogPin/LogUnpin of command c returned nil, n = the member whose CommitOp returned nil).
+   For every trace the model accepts - no guard - and every acknowledgement in it: at the moment of the acknowledgement the
+   operation is in the log at a position the committer has applied ... *)
+Theorem raft_ack_visible_on_committer k cmds pre c n post :
+  model_eqb k cmds (pre ++ OAck c n :: post) = true ->
+  let cl := fst (model_after cmds [] (init (nn k)) pre) in
+  exists j, (j < applied (getn (nn n) cl))%nat /\ nth_error (log cl) j = Some (cmd_of cmds c).
+Proof. exact (ack_in_log_l k cmds pre c n post). Qed.
+Print Assumptions raft_ack_visible_on_committer.
+
+(* ... hence (table inside the premise, no carried-finding shape) it is what the committer's pinset holds for its cid - the
+   stored pin, or nothing for an unpin - unless an operation the committer has applied after it writes the same cid *)
+Theorem raft_ack_in_committer_pinset k cmds pre c n post :
+  forallb in_premise cmds = true -> tag_of cmds (pre ++ OAck c n :: post) = 0 -> trace_wf k cmds (pre ++ OAck c n :: post) = true ->
+  model_eqb k cmds (pre ++ OAck c n :: post) = true ->
+  let cl := fst (model_after cmds [] (init (nn k)) pre) in
+  let nd := getn (nn n) cl in
+  exists j, (j < applied nd)%nat /\ nth_error (log cl) j = Some (cmd_of cmds c) /\
+    forall x, writes x (cmd_of cmds c) = true -> existsb (writes x) (slice (S j) (applied nd) (log cl)) = false ->
+              sget x (st nd) = effect (cmd_of cmds c).
+Proof. exact (ack_in_pinset_l k cmds pre c n post). Qed.
+Print Assumptions raft_ack_in_committer_pinset.
 
 (* non-vacuity: two replicas, pin / unpin, a snapshot installed onto the other replica, a restart, observations; every guard
    holds, the model agrees and the monitor accepts; the monitor rejects the same trace with a gap in the applied positions *)
@@ -173,34 +218,45 @@ Definition monitor_demo_trace : list oevent :=
    OTrk 0 [TCall true 1 2 (-1)%Z 0 []; TCall true 0 2 (-1)%Z 0 []]; OTrk 1 [TCall false 0 0 0%Z 0 []];
    OOffline 0 [wpin 0 1; wpin 1 1]; ORestart 0; OObs 0 (Some []); OApply 0 0; OApply 0 1; OApply 0 2; OObs 0 (Some [wpin 1 1])].
 Example raft_monitor_example :
-  forallb in_premise monitor_demo_cmds = true /\ is_S19 monitor_demo_cmds = false /\
+  forallb in_premise monitor_demo_cmds = true /\ tag_of monitor_demo_cmds monitor_demo_trace = 0 /\
+  trace_wf 2 monitor_demo_cmds monitor_demo_trace = true /\
   trace_guard 2 monitor_demo_cmds monitor_demo_trace = true /\ model_eqb 2 monitor_demo_cmds monitor_demo_trace = true /\
   spec_okb 2 monitor_demo_cmds monitor_demo_trace = true /\
   spec_okb 2 monitor_demo_cmds [OCommit 0; OCommit 1; OApply 0 1] = false.
 Proof. repeat split; vm_compute; reflexivity. Qed.
 
-(* what the completeness analysis found (each by evaluation; see docs/C01.md):
-   (a) the acknowledgement conjunct is NOT implied by agreement with the model: the model has no acknowledgement event, pass 1
-       accepts an OAck anywhere; this trace agrees with the model and fails the monitor untagged;
-   (b) the guard trace_guard cannot be weakened to "no late snapshot is restored" (the recogniser of S23, tag 3): OfflineState of
-       a replica whose newest snapshot was persisted after a later entry had been applied agrees with the model, fails the
-       monitor, and is not recognised (tag 0) - the harness never reads OfflineState in a rig where Persist can be held back *)
-Example raft_monitor_ack_not_implied :
-  let es := [OCommit 0; OAck 0 0] in
-  model_eqb 1 monitor_demo_cmds es = true /\ trace_guard 1 monitor_demo_cmds es = true /\
-  spec_okb 1 monitor_demo_cmds es = false /\ tag_of monitor_demo_cmds es = 0.
+(* acknowledgements: the model has the event. An acknowledgement at a committer that has not applied the entry is refused by
+   the model (code 1) as by the monitor (code 2); after the committer's apply both accept it; an operation submitted at a
+   follower (replica 0) is acknowledged once the LEADER (replica 1, the committer the harness records) has applied it, whether
+   or not the follower has; acknowledged at the follower before the leader applied it, it is refused *)
+Example raft_ack_examples :
+  let cmds := monitor_demo_cmds in
+  (model_eqb 1 cmds [OCommit 0; OAck 0 0] = false /\ spec_okb 1 cmds [OCommit 0; OAck 0 0] = false) /\
+  (model_eqb 1 cmds [OCommit 0; OApply 0 0; OAck 0 0] = true /\ spec_okb 1 cmds [OCommit 0; OApply 0 0; OAck 0 0] = true) /\
+  (model_eqb 2 cmds [OCommit 0; OApply 1 0; OAck 0 1] = true /\ spec_okb 2 cmds [OCommit 0; OApply 1 0; OAck 0 1] = true) /\
+  (model_eqb 2 cmds [OCommit 0; OApply 0 0; OAck 0 1] = false /\ spec_okb 2 cmds [OCommit 0; OApply 0 0; OAck 0 1] = false) /\
+  (model_eqb 1 cmds [OCommit 0; OApply 0 0; OAck 1 0] = false).
 Proof. repeat split; vm_compute; reflexivity. Qed.
-Example raft_monitor_offline_late_snapshot_untagged :
+
+(* the S23 recogniser covers the two shapes it used to miss (each agrees with the model, fails the monitor, and is now tag 3):
+   (a) OfflineState of a replica whose newest snapshot was persisted after a later entry had been applied; *)
+Example raft_monitor_offline_late_snapshot_tagged :
   let es := [OCommit 0; OApply 0 0; OSnapReq 0 true; OCommit 1; OApply 0 1; OPersist 0; OOffline 0 [wpin 0 1; wpin 1 1]] in
   model_eqb 1 monitor_demo_cmds es = true /\ trace_guard 1 monitor_demo_cmds es = false /\
-  spec_okb 1 monitor_demo_cmds es = false /\ tag_of monitor_demo_cmds es = 0.
+  spec_okb 1 monitor_demo_cmds es = false /\ tag_of monitor_demo_cmds es = 3.
 Proof. repeat split; vm_compute; reflexivity. Qed.
-(* (c) likewise a snapshot INSTALLED on a replica between its FSM.Snapshot and the Persist of it makes a late snapshot that the S23
-       recogniser (which only looks at applies) does not flag: restoring it and replaying agrees with the model, fails, tag 0 *)
-Example raft_monitor_install_between_snapshot_and_persist_untagged :
+(* (b) a snapshot INSTALLED on a replica between its FSM.Snapshot and the Persist of it makes a late snapshot; restoring it and
+       replaying agrees with the model and fails the monitor *)
+Example raft_monitor_install_between_snapshot_and_persist_tagged :
   let cmds := [LPin (wpin 0 1); LPin (wpin 1 1); LUnpin (wpin 1 1); LPin (wpin 2 1)] in
   let es := [OCommit 0; OCommit 1; OCommit 2; OCommit 3; OApply 0 0; OApply 0 1; OApply 0 2; OApply 0 3; OSnapReq 0 true; OPersist 0;
              OApply 1 0; OSnapReq 1 true; ORestore 1 0 0 4; OPersist 1; ORestart 1; ORestore 1 1 0 1; OApply 1 1;
              OObs 1 (Some [wpin 0 1; wpin 1 1; wpin 2 1])] in
-  model_eqb 2 cmds es = true /\ trace_guard 2 cmds es = false /\ spec_okb 2 cmds es = false /\ tag_of cmds es = 0.
+  model_eqb 2 cmds es = true /\ trace_guard 2 cmds es = false /\ spec_okb 2 cmds es = false /\ tag_of cmds es = 3.
+Proof. repeat split; vm_compute; reflexivity. Qed.
+(* the recogniser looks at the shape only: a late snapshot that nobody restores or reads is not flagged, and the trace passes *)
+Example raft_late_snapshot_unused_passes :
+  let es := [OCommit 0; OApply 0 0; OSnapReq 0 true; OCommit 1; OApply 0 1; OPersist 0; OObs 0 (Some [wpin 0 1; wpin 1 1])] in
+  model_eqb 1 monitor_demo_cmds es = true /\ trace_guard 1 monitor_demo_cmds es = false /\
+  spec_okb 1 monitor_demo_cmds es = true /\ tag_of monitor_demo_cmds es = 0.
 Proof. repeat split; vm_compute; reflexivity. Qed.
